@@ -71,8 +71,6 @@ REAL_VALIDATION = (
     'exactly_lib.processing.parse.test_case_parser.new_parser',
 )
 
-STUB_NONE_K1 = ()
-
 # ============================================================================ K1:order
 
 ORDER_NAMES = ('A', 'TAB', 'B')  # TAB is a builtin
@@ -148,9 +146,7 @@ def render(statements) -> str:
 def _check_validation(text, expected, oracle_bug: bool = False) -> bool:
     """Runs the real validation on `text` (a test-case text: real parse of the whole; or a list of statements:
     real parse per statement, cached) and compares with the model's expectation."""
-    from exactly_lib.util.symbol_table import SymbolTable
-    p = lib.parsing()
-    predefined = p['builtins']()
+    predefined = lib.parsing()['builtins']()
     res = lib.validate(text, predefined)
     if sorted(predefined.names_set) != sorted(lib.BUILTINS):
         return False  # the predefined table must not be touched
@@ -817,7 +813,9 @@ K3C_P = (('-rel-act @[S]@/f', 'act', lambda sv: sv + '/f'), ('-rel-home h', 'hom
          ('-rel-cd c/d', 'cwd', lambda sv: 'c/d'),
          # the builtin directory symbols
          ('@[EXACTLY_ACT]@/a', 'act', lambda sv: 'a'), ('@[EXACTLY_TMP]@/@[S]@', 'tmp', lambda sv: sv),
-         ('@[EXACTLY_HOME]@/h', 'home', lambda sv: 'h'), ('-rel EXACTLY_ACT_HOME h', 'home', lambda sv: 'h'))
+         ('@[EXACTLY_HOME]@/h', 'home', lambda sv: 'h'), ('-rel EXACTLY_ACT_HOME h', 'home', lambda sv: 'h'),
+         # a string used as a path: relative to the default relativity of `def path` (the current directory)
+         ('@[S]@/f', 'cwd', lambda sv: sv + '/f'))
 K3C_PROBE = (('act', '% echo '), ('setup', '% echo '), ('cleanup', 'run % echo '), ('assert', 'run % echo '))
 K3C_ARGS = '@[S]@ @[L]@ "@[L]@" @[P]@ "@[P]@/x" @[T]@ pre@[S]@post @[P2]@'
 
@@ -968,23 +966,27 @@ def obligations(tier: str) -> List[Ob]:
     # ------------------------------------------------------------------ K1:types
     for i, xs in enumerate(_chunks(all_x, 6)):
         obs.append(_types_ob('K1:types:direct:%d' % i, 0, all_c, [], xs, 900))
+    one_per_type = [i for i, c in enumerate(CONSTS) if c[0] not in ('path-tmp', 'path-cd', 'path-act-home', 'path-default',
+                                                                    'path-abs', 'path-home')]
     for i, ls in enumerate(_chunks(all_l, 7)):
-        obs.append(_types_ob('K1:types:def-of-def:%d' % i, 1, all_c, ls, 'match', 900))
+        obs.append(_types_ob('K1:types:def-of-def:%d' % i, 1, one_per_type, ls, 'match', 900))
     c2 = [cl[x] for x in ('string', 'list', 'path-act', 'path-result')]
     l2 = [ll[x] for x in ('string', 'list', 'path-prefix', 'path-rel', 'path-suffix')]
     x2 = [xl[x] for x in ('argument', 'integer', 'file-dst', 'dir-rel', 'copy-src', 'text')]
     for c in c2:
-        obs.append(_types_ob('K1:types:chain2:%s' % CONSTS[c][0], 2, [c], l2, x2, 900))
+        obs.append(_types_ob('K1:types:chain2:%s' % CONSTS[c][0], 2, [c], l2, x2[:4], 900))
     for i, ls in enumerate(_chunks(list(range(N_WSTR_LINKS)), 6)):
         obs.append(_types_ob('K1:types:chain1:%d' % i, 1, c2, ls, list(range(N_WSTR_CTXS)), 900))
     if thorough:
-        one_per_type = [i for i, c in enumerate(CONSTS) if c[0] not in ('path-tmp', 'path-cd', 'path-act-home', 'path-default',
-                                                                        'path-abs', 'path-home')]
         for x in all_x:
             obs.append(_types_ob('K1:types:direct+1:%s' % CTXS[x][0], 1, one_per_type, all_l, [x], 1800))
         for c in one_per_type:
-            if CONSTS[c][1] is not None:
+            if CONSTS[c][1] in lib.W_STR:
                 obs.append(_types_ob('K1:types:def-of-def-of-def:%s' % CONSTS[c][0], 2, [c], all_l, 'match', 1800))
+            elif CONSTS[c][1] is not None:
+                # a value without string rendering can only be continued by definitions of the other kinds
+                obs.append(_types_ob('K1:types:def-of-def-of-def:%s' % CONSTS[c][0], 2, [c],
+                                     [ll['string'], ll['list'], ll['path-prefix']] + all_l[N_WSTR_LINKS:], 'match', 1800))
         c2t = [cl[x] for x in ('string', 'list', 'path-act', 'path-home', 'path-result', 'path-abs', 'builtin-TAB',
                                'builtin-EXACTLY_HOME', 'builtin-EXACTLY_RESULT', 'builtin-EXACTLY_ACT')]
         for c in c2t:
@@ -1012,10 +1014,10 @@ def obligations(tier: str) -> List[Ob]:
                           kernel='K2', selector=True, bound='seeded: a definition is visible from the start of its phase',
                           timeout=300)))
     # ------------------------------------------------------------------ K3
-    for maxlen in ((2, 3) if thorough else (2,)):
+    for maxlen in ((2, 4) if thorough else (2,)):
         for name, prog in K3_PROGRAMS.items():
             used = _k3_used(prog)
-            obs.append(Ob(name='K3:%s%s' % (name, ':len3' if maxlen == 3 else ''), fn='k3_substitution',
+            obs.append(Ob(name='K3:%s%s' % (name, ':len4' if maxlen == 4 else ''), fn='k3_substitution',
                           case=dict(program=name, maxlen=maxlen, used=used), kernel='K3',
                           bound='program `%s` with %s: every string value of <= %d characters (any characters), L of 0..2 elements' % (
                               '; '.join(l for _, l in k3_program(prog, _K3_DUMMY_ENV)[0]),
@@ -1056,7 +1058,7 @@ def obligations(tier: str) -> List[Ob]:
                           'exactly_lib.impls.types.path.parse_path._Parser',
                           'exactly_lib.impls.instructions.multi_phase.define_symbol.parser.TheInstructionEmbryo.main',
                           'exactly_lib.cli_default.program_modes.test_case.builtin_symbols.test_case_dir_symbols.ALL')
-    k3c = [(0, 3, (0, 5))]
+    k3c = [(0, 2, (0, 4))]
     if thorough:
         k3c = [(q, len(K3C_L), (0, 5)) for q in range(len(K3C_PROBE))] + [(0, 2, (5, len(K3C_P)))]
     for q, nlists, (plo, phi) in k3c:
